@@ -92,7 +92,7 @@ fn checker_nt<'a>(eps: &'a [Ep], strict_valid_counts: bool) -> impl Fn(&mut Acc,
 	}
 }
 
-pub const ELEMENTS: [&str; 6] = ["\\uD800", "\\uDBFF", "\\uDC00", "\\uDFFF", "\\n", "a"];
+pub const ELEMENTS: [&str; 9] = ["\\uD800", "\\uDBFF", "\\uDC00", "\\uDFFF", "\\n", "a", "\\uE000", "\\uFFFF", "\\u0041"];
 
 pub fn element_sequences(max_len: usize) -> Vec<Vec<u8>> {
 	let mut out: Vec<Vec<u8>> = vec![];
